@@ -242,7 +242,7 @@ def classify(step):
         return 'panic', step['detail']
     d = step['detail']
     if not step['reply']:
-        m = re.search(r'expected=(\S+) observed_code=(\d+)( short-read got=\d+ want=\d+ prefix=1 free=\d+| data-differs at=\d+| long-read)?', d)
+        m = re.search(r'expected=(\S+) observed_code=(\d+)( short-read got=\d+ want=\d+ prefix=1 free=\d+ nospace=\d| data-differs at=\d+| long-read)?', d)
         return 'reply', (m.group(0) if m else d)
     if step['nwf']:
         m = re.search(r'wf=(\S+)', d)
@@ -251,6 +251,8 @@ def classify(step):
         m = re.search(r'abs=(\S+)', d)
         return 'abs', (m.group(1) if m else d)
     m = re.search(r'alloc=(\S+)', d)
+    if m and m.group(1).startswith('cache:'):
+        return 'cache', m.group(1)
     return 'alloc', (m.group(1) if m else d)
 
 
